@@ -37,7 +37,9 @@ BAD = ["float-comment", "none-in-announce", "surrogate-comment", "surrogate-url"
 def strategy(tier):
     @st.composite
     def case(draw):
-        c = {"tree": draw(c07.small_tree()), "source": draw(c07.source_strategy())}
+        c = {"tree": draw(c07.small_tree()), "source": draw(c07.source_strategy()),
+             # the metafile path may have a second name (hard link) or be a symbolic link to the real file
+             "link": draw(st.sampled_from([None, None, None, "hard", "sym"]))}
         if draw(st.sampled_from([False] * 6 + [True])):
             c["bad"] = draw(st.sampled_from(BAD))
         else:
@@ -109,7 +111,13 @@ def run_case(case):
             d = os.path.join(scr, "run%d" % counter[0])
             os.mkdir(d)
             p = os.path.join(d, "m.torrent")
-            shutil.copyfile(src, p)
+            if case.get("link") == "sym":
+                shutil.copyfile(src, os.path.join(d, "real-file.torrent"))
+                os.symlink("real-file.torrent", p)
+            else:
+                shutil.copyfile(src, p)
+                if case.get("link") == "hard":
+                    os.link(p, os.path.join(d, "other-name.torrent"))
             return d, p
 
         # dry run: record the trace
@@ -124,6 +132,8 @@ def run_case(case):
         trace = list(fs.trace)
         st0 = state_of(p, orig, None)
         classes = ["ops=%d" % min(len(trace), 8)]
+        if case.get("link"):
+            classes.append("metafile-" + case["link"] + "link")
         if raised is not None:
             classes.append("edit-raises")
             if st0 != "old":
